@@ -39,6 +39,9 @@ MUTANTS = [
     ("Config", "Mutant_Config_MostSpecificGroup.cfg", "C12_Precedence"), ("Config", "Known_Config_WholeEntry.cfg", "C12_Precedence"),
     ("FixSchedule", "Mutant_FixSchedule_LinesIgnored.cfg", "Inv_C20_OnlyListed"), ("FixSchedule", "Mutant_FixSchedule_OffByOne.cfg", "Inv_C13_FixPhase"),
     ("ParseEmit", "Mutant_ParseEmit_AdjacentWords.cfg", "C08_WriteIsReadIffCanonical"), ("Batch", "Mutant_Batch_Leak.cfg", "C15_LeakConstant"), ("Relayout", "Mutant_Relayout_Layout.cfg", "C05_RolesInvariant"),
+    ("Main", "Mutant_Main_Unordered.cfg", "C15_OutputOrder"), ("Main", "Mutant_Main_ExitLast.cfg", "C14_ExitIsOr"), ("Main", "Known_Main_StopRace.cfg", "C15_DiskAsSerial"),
+    ("Converge", "Mutant_Converge_NotIdempotent.cfg", "C09_SecondFixChangesNothing"), ("Converge", "Mutant_Converge_NoDiscipline.cfg", "C09_SecondFixChangesNothing"),
+    ("Converge", "Mutant_Converge_NotCanonical.cfg", "C09_SecondFixChangesNothing"), ("LexerImpl", "Mutant_Lexer_PipeNotDelimiter.cfg", "C05_DelimitersSeparate"),
 ]
 
 
@@ -234,6 +237,45 @@ def batch_trace():
     binding("BatchTrace", base, "bt", [("leak digest changed", leak, ["C15_LeakConstant"]), ("result differs from solo", result, ["C15_ResultSolo"]), ("output order reversed", order, ["C15_OutputOrder"])])
 
 
+def main_trace():
+    """per-process event logs without a global order: the recorded run is accepted (TLC finds an interleaving); a result
+    reported before its task began, a wrong exit status, a swapped print order and a write to a rejected file are not"""
+    rej = "entity e is\n  port (a : in std_logic;\nend entity e\n\narchitecture a of e is\nbegin\n  process begin end end end;\n"
+    job = {"out": os.path.join(WD, "mt.json"), "work": os.path.join(WD, "mtw"), "first_id": 0,
+           "pool": {"a.vhd": "entity  a is\nend entity;\n", "b.vhd": os.path.join(REPO, "tests/styles/code_examples/grp_debouncer.vhd"), "rejected.vhd": rej, "c.vhd": "entity  c is\nend entity;\n"},
+           "scenarios": [{"k": 1, "files": ["a.vhd", "rejected.vhd", "b.vhd", "c.vhd"], "p": 3, "fix": True}]}
+    if drive("batchrun.py", job, "mt") is None:
+        return
+    base = json.load(open(job["out"] + ".main"))
+
+    def exitcode(d):
+        d["recs"][0]["exit"] = 0
+
+    def order(d):
+        d["recs"][0]["out"].reverse()
+
+    def wrote_rejected(d):
+        for p in d["recs"][0]["procs"]:
+            for e in p:
+                if e["t"] == "E" and e["i"] == 2:
+                    e["wrote"] = True
+        d["recs"][0]["disk"][1] = "fixed"
+
+    def end_before_begin(d):
+        for p in d["recs"][0]["procs"]:
+            if len(p) >= 2 and p[0]["t"] == "B" and p[1]["t"] == "E":
+                p[0], p[1] = p[1], p[0]
+                return
+        raise ValueError
+
+    def junit(d):
+        d["recs"][0]["junit"] = d["recs"][0]["junit"][:-1]
+
+    binding("MainTrace", base, "mt", [("exit status 0 although a file was rejected", exitcode, ["C14_ExitIsOr"]), ("reports printed in reverse order", order, ["C15_OutputOrder", "C15_NoScheduleExplains"]),
+                                      ("the rejected file was rewritten", wrote_rejected, ["C16_RejectedUntouched"]), ("a task returned before it was entered", end_before_begin, ["C15_NoScheduleExplains"]),
+                                      ("a JUnit entry missing", junit, ["C14_ArtefactsAreCollected"])])
+
+
 def relayout_trace():
     job = {"out": os.path.join(WD, "rel.json"), "first_id": 0, "items": [{"path": os.path.join(REPO, "tests/styles/code_examples/comments.vhd"), "name": "comments.vhd", "recipes": ["eol1", "upper"]}]}
     base = drive("relrun.py", job, "rel")
@@ -253,7 +295,7 @@ def main():
     shutil.rmtree(WD, ignore_errors=True)
     os.makedirs(WD)
     spec_mutants()
-    for fn in (fix_trace, lexer_trace, tags_trace, wb_trace, check_trace, config_trace, batch_trace, relayout_trace):
+    for fn in (fix_trace, lexer_trace, tags_trace, wb_trace, check_trace, config_trace, batch_trace, main_trace, relayout_trace):
         try:
             fn()
         except Exception as e:
